@@ -16,6 +16,8 @@ pub struct StreamEncryptor<R> {
     source: R,
     /// Indicates if we are done reading from the `source`.
     is_source_done: bool,
+    /// Set once reading from the `source` or encrypting has failed; every further read fails.
+    errored: bool,
     /// Total number of bytes read from the source.
     bytes_read: u64,
     chunk_index: u64,
@@ -63,6 +65,7 @@ impl<R: io::Read> StreamEncryptor<R> {
         Ok(StreamEncryptor {
             source,
             is_source_done: false,
+            errored: false,
             bytes_read: 0,
             chunk_index: 0,
             info,
@@ -149,10 +152,18 @@ impl<R: io::Read> StreamEncryptor<R> {
 
 impl<R: io::Read> io::Read for StreamEncryptor<R> {
     fn read(&mut self, buf: &mut [u8]) -> io::Result<usize> {
+        if self.errored {
+            return Err(io::Error::other("StreamEncryptor errored"));
+        }
         if !self.buffer.has_remaining() {
             if !self.is_source_done {
                 // Still more to read and encrypt from the source.
-                self.fill_buffer()?;
+                if let Err(err) = self.fill_buffer() {
+                    // the buffer may hold plaintext that has not been encrypted: never hand it out
+                    self.buffer.clear();
+                    self.errored = true;
+                    return Err(err);
+                }
             } else {
                 // The final chunk was written, we have nothing left to give.
                 return Ok(0);
